@@ -1071,6 +1071,7 @@ class Gaus(PSMethod):
 
 
 class PhaseSpaceCtor12Use(PhaseSpaceCtor12):
+    param_defaults = {'zoom': lambda: RealV(z3.RealVal(1), parse_type_str('double')), 'data': lambda: PtrV(None, I(0), None)}     # as declared in PhaseSpace.hpp
     """call-site view: charge and current members are the constructor arguments (member initialisers charge(beam_charge),
     current(beam_current) of the main constructor, forwarded unchanged by the delegating ones); trailing parameters may be defaulted"""
 
